@@ -19,6 +19,14 @@ type Driver struct {
 	PByz        float64 // per block
 	PTimeJump   float64
 	PAbsentRun  float64
+	PReplay     float64 // probability that a slot re-delivers earlier bytes instead of a new tx
+	pool        []replayItem
+	PostTx      func(i int, tx []byte, meta *TxMeta, code uint32) // optional observer
+}
+
+type replayItem struct {
+	bz   []byte
+	meta TxMeta
 }
 
 // NewDriver makes a driver with mild default schedules.
@@ -69,10 +77,30 @@ func (d *Driver) Block() *BlockRes {
 		if i > 0 {
 			// learn from the previous response
 			res := d.S.CurRes.Deliver[i-1]
-			d.G.Learn(&d.S.Metas[i-1], res.Code, Tags(&res))
+			pm := d.S.Metas[i-1]
+			d.G.Learn(&pm, res.Code, Tags(&res))
+			if d.PReplay > 0 && pm.Kind != "replay" {
+				it := replayItem{bz: d.S.CurReq.Txs[i-1], meta: pm}
+				if len(d.pool) < 300 {
+					d.pool = append(d.pool, it)
+				} else {
+					d.pool[d.R.Intn(len(d.pool))] = it
+				}
+			}
 		}
 		if i >= n {
 			return nil, TxMeta{}, false
+		}
+		if d.PReplay > 0 && len(d.pool) > 0 && d.R.Float64() < d.PReplay {
+			// mostly recent ones (same block / next block), sometimes old ones
+			k := len(d.pool) - 1 - d.R.Intn(minInt(len(d.pool), 6))
+			if d.R.Intn(4) == 0 {
+				k = d.R.Intn(len(d.pool))
+			}
+			it := d.pool[k]
+			it.meta.Note = it.meta.Kind
+			it.meta.Kind = "replay"
+			return it.bz, it.meta, true
 		}
 		b, m := d.G.Next()
 		return b, m, true
@@ -84,4 +112,11 @@ func (d *Driver) Run(n int) {
 	for i := 0; i < n && !d.S.Dead && !d.S.Stopped; i++ {
 		d.Block()
 	}
+}
+
+func minInt(a, b int) int {
+	if a < b {
+		return a
+	}
+	return b
 }
